@@ -22,7 +22,7 @@ RULE = (
     "the unknown sample x filler layout {one object per centre; dense-compact ref vs sparse-wide unknown; "
     "reverse; unknown larger in patch 0 but smaller in total} x configuration {binning (right/left closed, "
     "empty middle bin, zmin 0.01, z 1.6-6) x scale set (1,2,3,4 scales, also listed in non-ascending order) x unit (deg, arcmin, kpc, Mpc, kpc/h, "
-    "Mpc/h) x separation weighting (none, alpha=-1 res 1/3/50, alpha=0.5 res 3)} x weights on/off; both "
+    "Mpc/h; one Mpc configuration with a spatially closed LambdaCDM instance) x separation weighting (none, alpha=-1 res 1/3/50, alpha=0.5 res 3)} x weights on/off; both "
     "crosscorrelate (dd,dr,rd,rr) and autocorrelate (dd,dr,rr). Oracle: O(n^2) Vincenty long-double pair "
     "loop per (scale,bin,i,j) and per-bin per-patch weight sums. Skipped by rule: a pair within 1e-9 (rel.) "
     "of a scale/fine-bin limit or an object within 1e-9 rad of a Voronoi border. Non-trivial: the reference "
@@ -49,6 +49,7 @@ CONFIGS = {
         dict(binning="lowz", scales="ang3", unit="Mpc", rweight=None, res=None, weighted=False),
         dict(binning="B2r", scales="ang2", unit="deg", rweight=-1.0, res=3, weighted=True),
         dict(binning="B2r", scales="ang3rev", unit="deg", rweight=-1.0, res=5, weighted=False),
+        dict(binning="highz", scales="ang3", unit="Mpc", rweight=None, res=None, weighted=False, cosmo="curved"),
     ],
 }
 CONFIGS["thorough"] = CONFIGS["quick"] + [
@@ -225,10 +226,11 @@ cfacts_const = {}
 def zfact(case):
     """Discriminating fact for a lost patch pair, computed from the configuration alone."""
     edges, _ = worlds.BINNINGS[case["binning"]]
-    rmin, rmax = worlds.scale_config(case["scales"], case["unit"], case["binning"])
-    at_limit = max(worlds.ref_angles(rmin, rmax, case["unit"], max(edges[0], 0.05))[1])
+    cosmo = case.get("cosmo", "Planck15")
+    rmin, rmax = worlds.scale_config(case["scales"], case["unit"], case["binning"], cosmo)
+    at_limit = max(worlds.ref_angles(rmin, rmax, case["unit"], max(edges[0], 0.05), cosmo)[1])
     mids = [(a + b) / 2 for a, b in zip(edges[:-1], edges[1:])]
-    at_mids = max(max(worlds.ref_angles(rmin, rmax, case["unit"], z)[1]) for z in mids)
+    at_mids = max(max(worlds.ref_angles(rmin, rmax, case["unit"], z, cosmo)[1]) for z in mids)
     return ("angle-at-bin-centre-exceeds-angle-at-max(zmin,0.05)" if at_mids > at_limit * (1 + 1e-12)
             else "angle-largest-at-max(zmin,0.05)")
 
@@ -239,7 +241,8 @@ def run_case(case):
     cfacts_const.clear()
     world, npatch = case["world"], case["npatch"]
     edges, closed = worlds.BINNINGS[case["binning"]]
-    rmin, rmax = worlds.scale_config(case["scales"], case["unit"], case["binning"])
+    cosmo = case.get("cosmo", "Planck15")
+    rmin, rmax = worlds.scale_config(case["scales"], case["unit"], case["binning"], cosmo)
     objs = build_catalogs(case)
     spacing = WIDE if case.get("wide") else worlds.D
     cats = [worlds.realise(world, o, npatch, spacing) for o in objs]
@@ -249,7 +252,7 @@ def run_case(case):
         return dict(status="skip", skip_rule="a centre attracts no object (C12's business)")
     R, U, RR, UR = cats
     mids = [(a + b) / 2 for a, b in zip(edges[:-1], edges[1:])]
-    angles = [worlds.ref_angles(rmin, rmax, case["unit"], z) for z in mids]
+    angles = [worlds.ref_angles(rmin, rmax, case["unit"], z, cosmo) for z in mids]
     common = dict(edges=edges, closed=closed, npatch=npatch, angles=angles, rweight=case["rweight"],
                   res=case["res"])
     refs = dict(
@@ -269,7 +272,8 @@ def run_case(case):
     lib = [worlds.make_catalog(f"{d}/{name}", c, cen) for name, c in zip(("R", "U", "RR", "UR"), cats)]
     cR, cU, cRR, cUR = lib
     config = yaw.Configuration.create(rmin=rmin, rmax=rmax, unit=case["unit"], edges=edges, closed=closed,
-                                      rweight=case["rweight"], resolution=case["res"])
+                                      rweight=case["rweight"], resolution=case["res"],
+                                      **(dict(cosmology=worlds.cosmo_of(cosmo)) if "cosmo" in case else {}))
     unitkind = "angular" if case["unit"] in ("deg", "arcmin") else "physical"
     cfacts = f"{case['binning']}/{unitkind}/{case['filler']}" + ("/wide-patches" if case.get("wide") else "")
     viols = []
